@@ -8,10 +8,8 @@ import (
 	"os"
 	"runtime"
 	"sort"
-	"strings"
 	"sync"
 	"testing"
-	"time"
 
 	"github.com/uhn/ggql/pkg/ggql"
 	"pgregory.net/rapid"
@@ -191,7 +189,7 @@ func runC12(c *c12Case) (ds []hx.Discrepancy, info map[string]bool) {
 	var setupErr error
 	alone := make(chan struct{})
 	go c12Alone(c, want, &setupErr, alone)
-	if stuck := awaitOrStuck(alone, "conc.c12Alone"); stuck != "" {
+	if stuck := hx.AwaitOrStuck(alone, "conc.c12Alone"); stuck != "" {
 		return []hx.Discrepancy{{Kind: "deadlock", Detail: "a request run alone on a fresh root: " + stuck}}, info
 	}
 	if setupErr != nil {
@@ -230,7 +228,7 @@ func runC12(c *c12Case) (ds []hx.Discrepancy, info map[string]bool) {
 	close(start)
 	done := make(chan struct{})
 	go func() { wg.Wait(); close(done) }()
-	if stuck := awaitOrStuck(done, "conc.runC12.func"); stuck != "" {
+	if stuck := hx.AwaitOrStuck(done, "conc.runC12.func"); stuck != "" {
 		return []hx.Discrepancy{{Kind: "deadlock", Detail: fmt.Sprintf("%d goroutines with %d requests: %s", c.Goroutines, len(c.Requests), stuck)}}, info
 	}
 	ggql.VerifYield = nil
@@ -312,7 +310,7 @@ func TestC12(t *testing.T) {
 				var problems []string
 				done := make(chan struct{})
 				go c12NestRound(nest.Depths, nest.Goroutines, &problems, done)
-				if stuck := awaitOrStuck(done, "conc.c12NestRound"); stuck != "" {
+				if stuck := hx.AwaitOrStuck(done, "conc.c12NestRound"); stuck != "" {
 					fmt.Printf("REPLAY-FAIL deadlock: %s\n", hx.Trunc(stuck, 1500))
 					os.Exit(1)
 				}
@@ -348,7 +346,7 @@ func TestC12(t *testing.T) {
 		nestDone := make(chan struct{})
 		go c12NestRound(depths, ng, &problems, nestDone)
 		nestCase := map[string]interface{}{"nest_depths": depths, "goroutines": ng}
-		if stuck := awaitOrStuck(nestDone, "conc.c12NestRound"); stuck != "" {
+		if stuck := hx.AwaitOrStuck(nestDone, "conc.c12NestRound"); stuck != "" {
 			run.Case(hx.Hash(nestCase), true, "deadlock")
 			fmt.Printf("--- FAIL: C12 violated: %s\n", run.ReportFailure(nestCase, []hx.Discrepancy{{Kind: "deadlock", Detail: "a Go method that asks its own root for the same field: " + stuck}}))
 			os.Exit(1)
@@ -579,65 +577,6 @@ func c12NestRound(depths []int, n int, problems *[]string, done chan struct{}) {
 				*problems = []string{fmt.Sprintf("request %s answered differently under concurrency (%d goroutines, a method that asks the root itself):\n  alone:      %s\n  concurrent: %s", reqs[i], n, want[i], got[g][i])}
 				return
 			}
-		}
-	}
-}
-
-// awaitOrStuck waits for done. The clock only decides when to look: a deadlock is reported from the
-// state of the goroutines - every worker still alive (a goroutine with the marker frame on its stack)
-// is parked in a synchronisation wait, twice in a row with the same set of goroutines, so none of
-// them can ever release what the others wait for. A worker that is merely slow (busy machine, race
-// detector) is running or runnable and is waited for.
-func awaitOrStuck(done <-chan struct{}, marker string) string {
-	var prev string
-	for {
-		select {
-		case <-done:
-			return ""
-		case <-time.After(3 * time.Second):
-		}
-		buf := make([]byte, 8<<20)
-		buf = buf[:runtime.Stack(buf, true)]
-		var ids, sample []string
-		allParked, n := true, 0
-		for _, g := range strings.Split(string(buf), "\n\n") {
-			if !strings.Contains(g, marker) {
-				continue
-			}
-			head := g
-			if i := strings.IndexByte(g, '\n'); i >= 0 {
-				head = g[:i]
-			}
-			i, j := strings.IndexByte(head, '['), strings.IndexByte(head, ']')
-			if i < 0 || j < i {
-				allParked = false
-				continue
-			}
-			state := head[i+1 : j]
-			if k := strings.IndexByte(state, ','); k >= 0 {
-				state = state[:k]
-			}
-			n++
-			if !(strings.HasPrefix(state, "sync.") || state == "semacquire") {
-				allParked = false
-			}
-			ids = append(ids, head[:i])
-			if len(sample) < 2 {
-				sample = append(sample, hx.Trunc(g, 1200))
-			}
-		}
-		cur := strings.Join(ids, "|")
-		if n > 0 && allParked && cur == prev {
-			select {
-			case <-done:
-				return ""
-			default:
-			}
-			return fmt.Sprintf("all %d unfinished workers are parked on a lock nobody can release:\n%s", n, strings.Join(sample, "\n\n"))
-		}
-		prev = ""
-		if n > 0 && allParked {
-			prev = cur
 		}
 	}
 }
